@@ -479,6 +479,21 @@ func c10Composition(p *Prog, r *Report) {
 			if sel, ok := x.(*ast.SelectorExpr); ok && lf.rawPath(sel.X) == wPath {
 				midFields[sel.Sel.Name] = true
 			}
+			// a method of the writer that returns the unwritten part (sink.rest()): the fields its body reads
+			if c, ok := x.(*ast.CallExpr); ok {
+				if sel, ok := ast.Unparen(c.Fun).(*ast.SelectorExpr); ok && lf.rawPath(sel.X) == wPath {
+					if h := p.staticCallee(cs.Pkg, c); h != nil && h.Pkg == cs.Pkg && h.Decl != nil && h.Decl.Body != nil {
+						if ro := paramObjs(h)[-1]; ro != nil {
+							ast.Inspect(h.Decl.Body, func(y ast.Node) bool {
+								if hs, ok := y.(*ast.SelectorExpr); ok && objOf(h.Pkg.TypesInfo, hs.X) == ro {
+									midFields[hs.Sel.Name] = true
+								}
+								return true
+							})
+						}
+					}
+				}
+			}
 			return true
 		})
 	}
